@@ -124,7 +124,13 @@ func (g *generator) walkDefinitions(schema *openapi3.Schema) (ast.Type, error) {
 func (g *generator) walkRef(schema *openapi3.SchemaRef) (ast.Type, error) {
 	pkg, referredKindName := g.getRefName(schema.Ref)
 
-	return ast.NewRef(pkg, referredKindName), nil
+	// the default declared by the referred schema applies to the reference
+	var defaultValue any
+	if schema.Value != nil {
+		defaultValue = schema.Value.Default
+	}
+
+	return ast.NewRef(pkg, referredKindName, ast.Default(defaultValue)), nil
 }
 
 func (g *generator) walkObject(schema *openapi3.Schema) (ast.Type, error) {
